@@ -214,10 +214,25 @@ class AGen:
                 acts.append(["task", r.choice([0, 0, 1, 2])])
             else:
                 acts.append(["adv", r.choice([1, 1, 2, 3, 4, 4, 5, 8])])
+        if pmix == 0.0 and r.random() < 0.1 and acts:
+            # a long quiet period (seconds, not ticks) in the middle of the run: idle timers / watchdogs of a node fire
+            acts.insert(r.randrange(len(acts) + 1), ["adv", r.choice([33, 40, 70])])
         if self.detach and kind in ("latest", "timed_window", "timed_window_unique", "buffer", "delay", "rate_limit", "partition") \
-                and pmix == 0.0 and r.random() < 0.2:
+                and pmix == 0.0 and r.random() < (0.35 if kind == "latest" else 0.2):
             # the feed of the node is swapped while it works: detached, some time / consumer completions go by, attached again
             pos = r.randrange(len(acts) + 1)
+            if kind == "latest" and r.random() < 0.7:
+                # ... preferably while the consumer is busy with one element and a newer one is pending
+                cands = [i + 1 for i in range(1, len(acts)) if acts[i][0] == "emit" and acts[i - 1][0] == "emit"]
+                if cands:
+                    pos = r.choice(cands)
+                else:
+                    extra = []
+                    for _ in range(2):
+                        self.nextval += 1
+                        extra.append(["emit", 0, self.value(), []])
+                    acts[pos:pos] = extra
+                    pos += 2
             gap = [["detach"]]
             for _ in range(r.choice([1, 2, 3])):
                 gap.append(r.choice([["adv", r.choice([1, 2, 4, 6, 9])], ["ack"], ["adv", r.choice([3, 5, 8])]]))
